@@ -181,8 +181,9 @@ def build_model(scn):
     else:
         m = KNNSupervisedOPF(max_k=scn["max_k"], distance=scn.get("metric", "euclidean"))
     if scn["mode"] == "pre":
+        how = H.derive_presentation(scn)
         m.pre_computed_distance = True
-        m.pre_distances = np.array(scn["D"], dtype=float)
+        m.pre_distances = H.present_layout(H.present_values(scn["D"], how, matrix=True), how)
     elif scn["mode"] == "table":
         Tm = np.array(scn["D"], dtype=float)
         m.distance_fn = lambda x, y: float(Tm[int(x[0]), int(y[0])])
@@ -191,10 +192,11 @@ def build_model(scn):
 
 def dist_fn(scn, model):
     np = _np()
+    how = H.derive_presentation(scn)
     if scn["mode"] in ("pre", "table"):
-        Tm = np.array(scn["D"], dtype=float)
+        Tm = np.array(H.present_values(scn["D"], how, matrix=True) if scn["mode"] == "pre" else scn["D"], dtype=float)
         return lambda a, b: float(Tm[a, b])
-    Z = np.array(scn["Z"], dtype=float)
+    Z = H.present_values(scn["Z"], how)
     fn = model.distance_fn
     return lambda a, b: float(fn(Z[a].copy(), Z[b].copy()))
 
@@ -206,7 +208,9 @@ def run_scenario(scn):
     install_wrappers()
     import opfython.utils.constants as c
 
-    Z = np.array(scn["Z"], dtype=float)
+    how = H.derive_presentation(scn)
+    P = lambda A: H.present_layout(A, how)
+    Z = H.present_values(scn["Z"], how)
     I_train = list(scn["I_train"])
     n = len(I_train)
     Q = scn.get("Q") or []
@@ -230,26 +234,26 @@ def run_scenario(scn):
     if "refit" in hist:
         try:
             if scn["kind"] == "unsup":
-                model.fit(Xtr.copy(), Ytr.copy(), np.array(I_train) if passI else None)
+                model.fit(P(Xtr.copy()), Ytr.copy(), np.array(I_train) if passI else None)
             else:
-                model.fit(Xtr.copy(), Ytr.copy(), Z[list(scn["I_val"])].copy(), np.array(scn["Yv"], dtype=int), np.array(I_train) if passI else None, np.array(list(scn["I_val"])) if passI else None)
+                model.fit(P(Xtr.copy()), Ytr.copy(), P(Z[list(scn["I_val"])].copy()), np.array(scn["Yv"], dtype=int), np.array(I_train) if passI else None, np.array(list(scn["I_val"])) if passI else None)
         except Exception as ex:
             return None, ("exception", "%s: %s" % (type(ex).__name__, str(ex)[:200]))
     CTX.update(on=True, model=model, snaps=[], log=[], nheaps=0)
     try:
         try:
             if scn["kind"] == "unsup":
-                model.fit(Xtr, Ytr.copy(), np.array(I_train) if passI else None)
+                model.fit(P(Xtr), Ytr.copy(), np.array(I_train) if passI else None)
                 if "prepredict" in hist and Q:
                     # object history: the model has already predicted once before its labels are (re)written
-                    model.predict(Z[Q].copy(), np.array(Q) if passI else None)
+                    model.predict(P(Z[Q].copy()), np.array(Q) if passI else None)
                 if scn.get("propagate"):
                     model.propagate_labels()
             else:
                 Iv = list(scn["I_val"])
-                model.fit(Xtr, Ytr.copy(), Z[Iv].copy(), np.array(scn["Yv"], dtype=int), np.array(I_train) if passI else None, np.array(Iv) if passI else None)
+                model.fit(P(Xtr), Ytr.copy(), P(Z[Iv].copy()), np.array(scn["Yv"], dtype=int), np.array(I_train) if passI else None, np.array(Iv) if passI else None)
                 if "prepredict" in hist and Q:
-                    model.predict(Z[Q[::-1]].copy(), np.array(Q[::-1]) if passI else None)
+                    model.predict(P(Z[Q[::-1]].copy()), np.array(Q[::-1]) if passI else None)
         finally:
             CTX["on"] = False
         orig = model
@@ -275,7 +279,7 @@ def run_scenario(scn):
             Xq = Z[Q].copy()
             batches = [[j] for j in range(len(Q))] if scn.get("single_predict") else [list(range(len(Q)))]
             for b in batches:
-                r = model.predict(Xq[b].copy(), np.array([Q[j] for j in b]) if passI else None)
+                r = model.predict(P(Xq[b].copy()), np.array([Q[j] for j in b]) if passI else None)
                 if scn["kind"] == "unsup":
                     pr, cl = r
                 else:
